@@ -3,7 +3,10 @@ Driver for C13: reads the cases printed by harness/c13 (which ran the REAL tick/
 pipeline/tick code), and per case
   1. evaluates the spec (Kap/Spec/C13.lean) on the OBSERVED events  → SPECFAIL / KNOWN,
   2. replays the expression ops on the model (Kap/Model/C13.lean) and compares every observation → MISMATCH.
-Script-level ops (script/sfmt/sreparse/dot/ptick/pjson) have no model: they are judged by the spec only.
+Script-level ops are replayed on the statement-level model (Kap/Model/C13Prog.lean); pipeline construction and
+pipeline JSON (dot / pjson) have no model: spec only. `pnodes` + `ptick`: every node of the real pipeline (fields
+dumped by reflection) is rendered by the model of pipeline/tick (Kap/Model/C13Tick.lean interpreting the Build
+bodies extracted from the source) and compared token by token with the chain links of the real rendering.
 -/
 import Kap.Basic
 import Kap.Model.C13
@@ -11,6 +14,7 @@ import Kap.Model.C13Prog
 import Kap.Proofs.C13Prog
 import Kap.Proofs.C13ProgImage
 import Kap.Proofs.C13DecodeTree
+import Kap.Proofs.C13Tick
 import Kap.Gen.C13Tick
 import Kap.Spec.C13
 open Kap Kap.C13 Kap.C13.Gen
@@ -123,6 +127,75 @@ def progBranches (p : Program) : List String :=
     | .expr (.arg _) => ["stmt-expr"]
   (p.map stmt).flatten
 
+
+/-! reading the node dumps of `pnodes` (harness/c13: dumpVal) -/
+
+structure PNode where
+  typ : String
+  name : String
+  parents : List String
+  val : Tick.Val
+
+mutual
+def readVal : Nat → List String → Option (Tick.Val × List String)
+  | 0, _ => none
+  | f + 1, ts =>
+    match ts with
+    | "s" :: x :: r => (unesc x).map (fun s => (.str s, r))
+    | "i" :: x :: r => x.toInt?.map (fun v => (.int v, r))
+    | "f" :: x :: r => some (.flt x, r)
+    | "b" :: x :: r => some (.bool (x == "1"), r)
+    | "d" :: x :: r => x.toInt?.map (fun v => (.dur v, r))
+    | "lam" :: k :: r =>
+      match k.toNat? with
+      | some n =>
+        if r.length < n then none else
+        match undumpAll (r.take n) with
+        | some e => some (.lambda e, r.drop n)
+        | none => some (.other, r.drop n)
+      | none => none
+    | "lamnil" :: r => some (.lamNil, r)
+    | "star" :: r => some (.star, r)
+    | "starnil" :: r => some (.starNil, r)
+    | "nil" :: r => some (.nil, r)
+    | "other" :: r => some (.other, r)
+    | "ilist" :: k :: r => k.toNat?.bind (fun n => (readVals f n r).map (fun x => (.ilist x.1, x.2)))
+    | "slice" :: k :: r => k.toNat?.bind (fun n => (readVals f n r).map (fun x => (.slice x.1, x.2)))
+    | "map" :: k :: r => k.toNat?.bind (fun n => (readKVs f n true r).map (fun x => (.map x.1, x.2)))
+    | "struct" :: k :: r => k.toNat?.bind (fun n => (readKVs f n false r).map (fun x => (.struct x.1, x.2)))
+    | _ => none
+def readVals : Nat → Nat → List String → Option (List Tick.Val × List String)
+  | 0, _, _ => none
+  | _ + 1, 0, ts => some ([], ts)
+  | f + 1, k + 1, ts =>
+    match readVal f ts with
+    | some (v, r) => (readVals f k r).map (fun x => (v :: x.1, x.2))
+    | none => none
+def readKVs : Nat → Nat → Bool → List String → Option (List Tick.Val × List String)
+  | 0, _, _, _ => none
+  | _ + 1, 0, _, ts => some ([], ts)
+  | f + 1, k + 1, escKey, ts =>
+    match ts with
+    | key :: r =>
+      match (if escKey then unesc key else some key), readVal f r with
+      | some ks, some (v, r') => (readKVs f k escKey r').map (fun x => (.kv ks v :: x.1, x.2))
+      | _, _ => none
+    | [] => none
+end
+
+def readNodes : Nat → List String → Option (List PNode)
+  | 0, _ => none
+  | _ + 1, [] => some []
+  | f + 1, "node" :: typ :: name :: k :: r =>
+    match unesc name, k.toNat? with
+    | some nm, some n =>
+      if r.length < n then none else
+      match (r.take n).mapM unesc, readVal (r.length + 2) (r.drop n) with
+      | some ps, some (v, r') => (readNodes f r').map (fun ns => { typ := typ, name := nm, parents := ps, val := v } :: ns)
+      | _, _ => none
+    | _, _ => none
+  | _ + 1, _ => none
+
 def statusOf {α} : Res α → String
   | .ok _ => "ok"
   | .err => "err"
@@ -139,6 +212,7 @@ structure St where
   afterPtick : Bool := false
   curP : Res Program := .err
   progOff : Option String := none      -- statement-level model said "not covered"
+  pnodes : Option (List PNode) := none -- the nodes of the pipeline that `ptick` renders next
 
 def addBr (st : St) (bs : List String) : St :=
   { st with br := bs.foldl (fun acc b => if acc.contains b then acc else b :: acc) st.br }
@@ -214,6 +288,68 @@ where
       let more := rest.dropWhile (fun x => x.op != .pipe)
       (l.name, props) :: segmentsAux more n
 
+/-! pipeline/tick VALUES: the model rendering of every node against the links of the real text -/
+
+/-- split a chain before every `|` link: one list of links per node -/
+def segLinks : List Link → List (List Link)
+  | [] => []
+  | l :: rest =>
+    let props := rest.takeWhile (fun x => x.op != .pipe)
+    let more := rest.dropWhile (fun x => x.op != .pipe)
+    if l.op == .pipe then (l :: props) :: segLinksAux more rest.length else segLinksAux more rest.length
+where
+  segLinksAux : List Link → Nat → List (List Link)
+    | _, 0 => []
+    | [], _ => []
+    | l :: rest, n + 1 =>
+      let props := rest.takeWhile (fun x => x.op != .pipe)
+      let more := rest.dropWhile (fun x => x.op != .pipe)
+      (l :: props) :: segLinksAux more n
+
+/-- the node kind a Build body pipes, when it is a literal -/
+def staticKind (body : List Tick.BStmt) : Option String :=
+  body.findSome? (fun s => match s with
+    | .call "Pipe" name _ => some name
+    | .call "PipeZeroValueOK" name _ => some name
+    | _ => none)
+
+def tokStr (ts : List Tok) : String := toString (repr ts)
+
+def checkTickValues (st : St) (p : Program) : St :=
+  match st.pnodes with
+  | none => st
+  | some nodes =>
+    let statics := Gen.tickBuild.filterMap (fun e => staticKind e.2.2)
+    -- model side
+    let rendered := nodes.filterMap (fun n =>
+      match Gen.tickBuild.find? (fun e => e.1 == n.typ) with
+      | none => none
+      | some (_, param, body) =>
+        match staticKind body with
+        | none => none
+        | some kind =>
+          let pt := (n.parents.drop 1).map (fun q => Tick.Val.node (.id q))
+          some (kind, (Tick.renderNode body param n.val pt).map (fun ls => tokStr (fmtLinks (ls.map Tick.normLink)))))
+    let naKinds := rendered.filterMap (fun x => if x.2.isNone then some x.1 else none)
+    let model := (rendered.filterMap (fun x => if naKinds.contains x.1 then none else x.2)).mergeSort (· ≤ ·)
+    -- implementation side: the links of the real text, node by node
+    let chains := p.filterMap (fun s => match s with
+      | .decl _ (.chain _ ls) => some ls
+      | .expr (.chain _ ls) => some ls
+      | _ => none)
+    let segs := (chains.map segLinks).flatten
+    let real := (segs.filterMap (fun ls =>
+      match ls.head? with
+      | some l => if statics.contains l.name && !naKinds.contains l.name then some (tokStr (fmtLinks ls)) else none
+      | none => none)).mergeSort (· ≤ ·)
+    let st := naKinds.foldl (fun st k => addBr st ["tick-values-na:" ++ k]) st
+    if model == real then (if model.isEmpty then st else addBr st ["tick-values-ok"])
+    else
+      let firstDiff := (model.zip real).find? (fun x => x.1 != x.2)
+      match firstDiff with
+      | some (m, r) => noteMism st s!"pipeline/tick values: model renders {m.take 400} ; real {r.take 400}"
+      | none => noteMism st s!"pipeline/tick values: model renders {model.length} static nodes, the real text has {real.length}"
+
 def checkTick (st : St) (txt : String) : St :=
   match parseProgram txt with
   | .ok p =>
@@ -222,15 +358,21 @@ def checkTick (st : St) (txt : String) : St :=
       | .expr (.chain _ ls) => some ls
       | _ => none)
     let segs := (chains.map segments).flatten
-    segs.foldl (fun st (node, props) =>
+    let st := segs.foldl (fun st (node, props) =>
       match Gen.tickTable.find? (fun e => e.1 == node) with
       | none => addBr st ["tick-dynamic-node"]
       | some (_, table) =>
         match embedProps table 0 props with
         | none => addBr st ["tick-order-ok"]
         | some why => noteMism st s!"pipeline/tick |{node}: {why}") st
+    -- the tokens of the real text are the tokens of the parsed program (so the links compared below are the text's)
+    let st := match (lex txt.toList).bind decodeAll with
+      | .ok ts => if ts == fmtProgram p then st else noteMism st "ptick: tokens of the rendered text differ from fmtProgram of its parse"
+      | _ => noteMism st "ptick: the model lexer rejects the rendered script"
+    checkTickValues st p
   | .err => noteMism st "ptick: the model parser rejects the rendered script"
   | .na w => addBr st ["tick-na:" ++ w]
+
 
 /-- the formatted text, token by token (layout-independent), against the model's `fmtProgram` -/
 def cmpProgText (st : St) (txt : String) : St :=
@@ -348,6 +490,13 @@ def judge (_id : String) (lines : Array String) : Verdict := Id.run do
           st := addBr { st with evs := st.evs.push (.pipe via (some (ds, js))), nt := true } ["pipeline-" ++ via]
         | ["panic"] => st := { st with evs := st.evs.push (.panic op) }
         | _ => st := { st with evs := st.evs.push (.pipe (if st.afterPtick then "ptick-" ++ op else op) none) }
+      else if op == "pnodes" then
+        match obs with
+        | "ok" :: _n :: d =>
+          match readNodes (d.length + 2) d with
+          | some ns => st := addBr { st with pnodes := some ns } ["pnodes"]
+          | none => return .badop l
+        | _ => st := { st with pnodes := none }
       else if op == "ptick" then
         match obs with
         | ["panic"] => st := { st with evs := st.evs.push (.panic op) }
